@@ -131,3 +131,72 @@ package v2
 //@   property C01 C29
 //@   nopanic
 //@   ensures[off] off == ite(h.Version == 3, 64 + h.NameLength, 64)
+
+// ---------------------------------------------------------------------------------------
+// Writer side. The WriteBuffer is private to its FileWriter; every access happens under
+// FileWriter.mu, whose monitor invariant carries the facts that keep a block encodable:
+//   buffer_below_threshold  between operations the buffer is below the flush threshold
+//   entry_sizes             every buffered entry accounts for at least 7 bytes of currentSize
+//   block_fits_count        so a block never holds more than 65535 entries (16-bit count)
+//   entries_encodable       every buffered entry has an encodable key and payload
+//@ global snappyCompressor nonnil
+
+//@ type FileWriter
+//@   guarded_by mu: blockCount, entryCount, closed
+//@   invariant[parts] self.buffer != nil && self.header != nil
+//@   lockinv mu [buffer_below_threshold] self.buffer.currentSize < self.buffer.maxSize
+//@   lockinv mu [entry_sizes] 0 <= self.buffer.currentSize && 7 * len(self.buffer.entries) <= self.buffer.currentSize
+//@   lockinv mu [block_fits_count] 0 < self.buffer.maxSize && self.buffer.maxSize <= 458745
+//@   lockinv mu [entries_encodable] forall i in 0..len(self.buffer.entries): 1 <= len(self.buffer.entries[i].Key) && len(self.buffer.entries[i].Key) <= 65535 && len(self.buffer.entries[i].Data) <= 2147483648
+
+//@ func (*WriteBuffer).Add(wb, entry) (full)
+//@   property C01
+//@   nopanic
+//@   overflow: assumed
+//@   modifies wb.entries, wb.currentSize, arrays(wb.entries)
+//@   ensures[appended] len(wb.entries) == old(len(wb.entries)) + 1
+//@   ensures[last] wb.entries[len(wb.entries)-1].Operation == entry.Operation && wb.entries[len(wb.entries)-1].Key == entry.Key && len(wb.entries[len(wb.entries)-1].Data) == len(entry.Data) && sliceid(wb.entries[len(wb.entries)-1].Data) == sliceid(entry.Data)
+//@   ensures[others_kept] forall i in 0..old(len(wb.entries)): wb.entries[i].Operation == old(wb.entries[i].Operation) && len(wb.entries[i].Key) == old(len(wb.entries[i].Key)) && len(wb.entries[i].Data) == old(len(wb.entries[i].Data))
+//@   ensures[size] wb.currentSize == old(wb.currentSize) + 7 + len(entry.Key) + len(entry.Data)
+//@   ensures[full] full <==> wb.currentSize >= wb.maxSize
+
+// Flush: the block header's 16-bit entry count is exactly the number of buffered entries
+// (so it must fit), and the buffer is emptied.
+//@ func (*WriteBuffer).Flush(wb) (hdr, data, err)
+//@   property C01
+//@   nopanic
+//@   requires[count_fits] len(wb.entries) <= 65535
+//@   requires[entries_encodable] forall i in 0..len(wb.entries): len(wb.entries[i].Key) <= 65535 && len(wb.entries[i].Data) <= 4294967295
+//@   modifies wb.entries, wb.currentSize
+//@   ensures[nothing_buffered] old(len(wb.entries)) == 0 ==> hdr == nil && err == nil
+//@   ensures[count] err == nil && old(len(wb.entries)) > 0 ==> hdr != nil && hdr.EntryCount == old(len(wb.entries))
+//@   ensures[emptied] err == nil ==> len(wb.entries) == 0 && wb.currentSize == 0
+//@   ensures[kept_on_error] err != nil ==> len(wb.entries) == old(len(wb.entries)) && wb.currentSize == old(wb.currentSize)
+
+// serializeEntries: every buffered entry is encodable when it is serialised.
+//@ func (*WriteBuffer).serializeEntries(wb) (out)
+//@   property C01
+//@   nopanic
+//@   requires[entries_encodable] forall i in 0..len(wb.entries): len(wb.entries[i].Key) <= 65535 && len(wb.entries[i].Data) <= 4294967295
+//@   loop 0 invariant[buffer_untouched] len(wb.entries) == old(len(wb.entries))
+
+// WriteEntry (property C01, second sentence): an entry that cannot be encoded faithfully is
+// rejected, never buffered; an accepted entry is buffered, and the buffer is flushed as soon as
+// it reaches the threshold (monitor invariant buffer_below_threshold on every exit).
+//@ func (*FileWriter).WriteEntry(fw, entry) (err)
+//@   property C01
+//@   nopanic
+//@   overflow: assumed
+//@   modifies *
+//@   ensures[rejects_unencodable] (len(entry.Key) < 1 || len(entry.Key) > 65535 || len(entry.Data) > 2147483648) ==> err != nil
+//@   csensures[rejected_entry_not_buffered] (len(entry.Key) < 1 || len(entry.Key) > 65535 || len(entry.Data) > 2147483648) ==> len(fw.buffer.entries) == old(len(fw.buffer.entries)) && fw.buffer.currentSize == old(fw.buffer.currentSize)
+
+//@ func (*FileWriter).flushLocked(fw) (err)
+//@   property C01
+//@   nopanic
+//@   overflow: assumed
+//@   holds fw.mu
+//@   requires[count_fits] len(fw.buffer.entries) <= 65535
+//@   requires[entries_encodable] forall i in 0..len(fw.buffer.entries): len(fw.buffer.entries[i].Key) <= 65535 && len(fw.buffer.entries[i].Data) <= 4294967295
+//@   modifies *
+//@   ensures[flushed] err == nil ==> len(fw.buffer.entries) == 0 && fw.buffer.currentSize == 0
